@@ -73,7 +73,7 @@ def regroup(src, dst, chunk=450):
         f.write(hdr + '\n')
         for key in sorted(groups):
             lines = groups[key]
-            step = chunk if key == '' else 100000
+            step = chunk if key == '' else 4 * chunk
             for i in range(0, len(lines), step):
                 f.write(json.dumps({'op': 'reset', 'group': '%s-%d' % (key or 'plain', i // step)}, separators=(',', ':')) + '\n')
                 for l in lines[i:i + step]:
@@ -95,6 +95,9 @@ def case_ids(lines):
 
 # ------------------------------------------------------------------------------ judging
 def judge(ctx, traces, label):
+    # many short single-worker TLC runs side by side: keep each JVM small
+    if 'ParallelGCThreads' not in os.environ.get('JAVA_TOOL_OPTIONS', ''):
+        os.environ['JAVA_TOOL_OPTIONS'] = (os.environ.get('JAVA_TOOL_OPTIONS', '') + ' -XX:ParallelGCThreads=2 -XX:CICompilerCount=2 -Xmx4g').strip()
     relax = relax_consts(ctx)
     before = len(ctx.violations)
     vlib.judge_traces(ctx, 'OciErrorTrace', 'OciErrorTrace.cfg', traces, strict=relax, shard_lines=450, label=label + ' (pass A)')
@@ -139,12 +142,22 @@ def count(ctx, trace):
             ctx.cov['per_op'][c] = ctx.cov['per_op'].get(c, 0) + 1
 
 
+def model(ctx, cfg, what):
+    """One retry: on a heavily loaded machine a TLC JVM has been seen to die without output."""
+    try:
+        return vlib.model_check(ctx, 'OciErrorMC.tla', cfg, what=what)
+    except vlib.Machinery as e:
+        ctx.log('model check %s failed once, retrying: %s' % (cfg, str(e)[:200]))
+        return vlib.model_check(ctx, 'OciErrorMC.tla', cfg, what=what)
+
+
 def run(ctx):
     quick = ctx.tier == 'quick'
     sfx = '' if quick else '_thorough'
     what = 'statuses {400,404,416,429,500}' if quick else 'statuses {400,401,403,404,416,418,429,500,503,599}'
-    vlib.model_check(ctx, 'OciErrorMC.tla', 'OciErrorMC_design%s.cfg' % sfx, what='design: all laws, no exception; 5 carrier kinds x 0..3 hops; ' + what)
-    vlib.model_check(ctx, 'OciErrorMC.tla', 'OciErrorMC_impl%s.cfg' % sfx, what='model of the current code: laws outside the named cells K2/K2b/stutter, exact deviation inside; ' + what)
+    kinds = 'GET and HEAD carriers' if quick else '5 carrier kinds'
+    model(ctx, 'OciErrorMC_design%s.cfg' % sfx, 'design: all laws, no exception; %s x 0..3 hops; %s' % (kinds, what))
+    model(ctx, 'OciErrorMC_impl%s.cfg' % sfx, 'model of the current code: laws outside the named cells K2/K2b/stutter, exact deviation inside; %s x 0..3 hops; %s' % (kinds, what))
     gen, _ = vlib.generate(ctx, 'OciErrorMC.tla', 'OciErrorMC_gen%s.cfg' % sfx)
     if not gen:
         raise vlib.Machinery('TLC exported no cases')
